@@ -1,6 +1,9 @@
 package dnsmsg
 
-import "github.com/IrineSistiana/mosproxy/internal/verifrt"
+import (
+	"github.com/IrineSistiana/mosproxy/internal/pool"
+	"github.com/IrineSistiana/mosproxy/internal/verifrt"
+)
 
 // VerifH_C01_unpackName: unpackName on an arbitrary small buffer never panics, terminates,
 // and on success returns a cursor inside the buffer and a valid wire name.
@@ -95,4 +98,31 @@ func VerifH_C01_UnpackMsg() {
 	verifrt.Assert(len(m.Questions) == int(cnt[0]) && len(m.Answers) == int(cnt[1]) && len(m.Authorities) == int(cnt[2]) && len(m.Additionals) == int(cnt[3]),
 		"an accepted message has exactly the announced number of entries")
 	verifrt.Assert(m.ID == 0x1234 && m.RecursionDesired, "header fields")
+}
+
+// VerifH_C01_ToReadableHostileName: the longest legal name (254 octets of labels) made of octets that all need the
+// 4-character \DDD escape (plus two arbitrary ones): the text form – built for logs and for regular-expression rules –
+// fits its buffer and goes back to the pool without a crash. (The pool panics on a buffer whose capacity is not one
+// of its size classes, e.g. one that append had to re-allocate.)
+func VerifH_C01_ToReadableHostileName() {
+	verifrt.Unwind(400)
+	last := 57 + verifrt.Choose("last-label", 5) // total 250..254
+	n := pool.GetBuf(3*64 + 1 + last)
+	off := 0
+	for _, l := range []int{63, 63, 63, last} {
+		n[off] = byte(l)
+		off++
+		for i := 0; i < l; i++ {
+			n[off] = 1
+			off++
+		}
+	}
+	n[1], n[len(n)-1] = verifrt.Byte("first"), verifrt.Byte("last")
+	b, err := ToReadable(n)
+	verifrt.Assert(err == nil, "a valid name has a text form")
+	verifrt.Reach("converted")
+	verifrt.Assert(len(b) >= 4*(len(n)-4)-6+3 && len(b) <= 4*(len(n)-4)+3, "every unprintable octet takes 4 characters, labels are joined by dots")
+	pool.ReleaseBuf(b)
+	pool.ReleaseBuf(n)
+	verifrt.Reach("released")
 }
